@@ -148,11 +148,12 @@ def run(tier, replay=None):
     from mchap.assemble.likelihood import log_likelihood
     n_fit = {"warm": 1, "quick": 6, "thorough": 40}[tier]
     for it in range(n_fit):
-        ploidy = r.choice([2, 4]); nb = r.randint(2, 6)
+        # diffuse posteriors (few reads, gaps) so that chains at different temperatures sit in different states
+        ploidy = r.choice([2, 4, 4, 6]); nb = r.randint(3, 6)
         n_alleles = [r.choice([2, 2, 3]) for _ in range(nb)]
         truth = G.gen_genotype(r, ploidy, n_alleles, dup=0.3)
-        reads, counts = G.gen_reads(r, n_alleles, r.randint(4, 12), haps=truth, gap=0.2, style="encoded")
-        temps = (1.0,) if r.random() < 0.4 else (0.25, 0.6, 1.0)
+        reads, counts = G.gen_reads(r, n_alleles, r.randint(3, 8), haps=truth, gap=0.3, style="encoded")
+        temps = (1.0,) if it % 3 == 2 else r.choice([(0.25, 0.6, 1.0), (0.1, 1.0), (0.5, 0.75, 0.9, 1.0)])
         traces = {}
         for thr in (-1, 0):
             mod_ = DenovoMCMC(ploidy=ploidy, n_alleles=n_alleles, steps=150, chains=2, fix_homozygous=2.0, temperatures=temps,
@@ -161,7 +162,7 @@ def run(tier, replay=None):
             traces[thr] = tr
             gt, lt = tr.genotypes, tr.llks
             for c in range(gt.shape[0]):
-                for s in range(0, gt.shape[1], 7):
+                for s in range(gt.shape[1]):
                     fresh = float(log_likelihood(reads, gt[c, s], read_counts=counts))
                     if not C.close_log(float(lt[c, s]), fresh):
                         chk.violation("likelihood recorded in the assemble trace differs from the recomputed likelihood of that genotype",
@@ -174,6 +175,55 @@ def run(tier, replay=None):
             s = int(np.argmax(np.any(traces[-1].genotypes != traces[0].genotypes, axis=(0, 2, 3))))
             chk.violation("enabling the assemble likelihood cache changes the sampled trajectory for a fixed seed",
                           {"ploidy": ploidy, "n_alleles": n_alleles, "temperatures": temps, "first_differing_step": s}, "C09/assemble/cache-trajectory")
+
+    # ------------------------------------------------------------------ (ii-b) dict caches of the call / call-pedigree wrappers over whole genotype spaces
+    import itertools
+    from numba import types
+    from numba.typed import Dict as NDict
+    from mchap.calling.likelihood import log_likelihood_alleles_cached as call_cached, log_likelihood_alleles
+    from mchap.pedigree.likelihood import log_likelihood_alleles_cached as ped_cached
+    spaces = [(10, 3), (12, 2), (9, 4), (4, 5), (5, 300), (6, 260), (2, 1000)]
+    if tier == "warm":
+        spaces = [(4, 3)]
+    for (ploidy, n_haps) in spaces:
+        nb = 10 if n_haps > 32 else 3
+        seen, haps = set(), []
+        for _ in range(n_haps * 20):
+            h = tuple(r.randrange(2) for _ in range(nb))
+            if h not in seen:
+                seen.add(h); haps.append(h)
+            if len(haps) == n_haps:
+                break
+        n_haps = len(haps)
+        harr = np.array(haps, dtype=np.int8)
+        reads, counts = G.gen_reads(r, [2] * nb, 6, haps=[list(haps[0]), list(haps[-1])], gap=0.1, style="encoded")
+        if math.comb(n_haps + ploidy - 1, ploidy) <= 1500:
+            genos = list(itertools.combinations_with_replacement(range(n_haps), ploidy))
+        else:
+            genos = sorted({tuple(sorted(r.randrange(n_haps) for _ in range(ploidy))) for _ in range(600)}
+                           | {tuple(sorted([r.randrange(n_haps)] + [r.randrange(max(1, n_haps - 3), n_haps) for _ in range(ploidy - 1)])) for _ in range(300)})
+        cache = NDict.empty(types.int64, types.float64); cache[-1] = np.nan
+        pcache = NDict.empty(types.UniTuple(types.int64, 2), types.float64); pcache[(-1, -1)] = np.nan
+        fresh = {}
+        order = list(genos); r.shuffle(order)
+        bad = None
+        for rnd in range(2):
+            for g in order:
+                arr = np.array(g, dtype=np.int64)
+                if g not in fresh:
+                    fresh[g] = float(log_likelihood_alleles(reads, counts, harr, arr))
+                perm = arr.copy(); np.random.shuffle(perm)   # the wrapper sorts before keying
+                v1 = float(call_cached(reads, counts, harr, perm, cache))
+                v2 = float(ped_cached(reads, counts, harr, 0, arr, pcache))
+                if bad is None and not (C.close_log(v1, fresh[g]) and C.close_log(v2, fresh[g])):
+                    bad = (g, v1, v2, fresh[g], rnd)
+            r.shuffle(order)
+        chk.count("dict-cache-space")
+        chk.case(("dict-cache", ploidy, n_haps, len(genos)), ploidy >= 9 or n_haps > 256)
+        if bad is not None:
+            chk.violation("a likelihood served from the call / call-pedigree genotype cache differs from the freshly computed likelihood",
+                          {"ploidy": ploidy, "n_haplotypes": n_haps, "genotype": list(bad[0]), "calling_cached": bad[1], "pedigree_cached": bad[2],
+                           "fresh": bad[3], "pass": bad[4], "n_genotypes_cached": len(genos)}, "C09/dict-cache/served-value")
 
     # ------------------------------------------------------------------ (iii) monitored plain-Python runs
     scale = {"warm": 0.4, "quick": 1.0, "thorough": 6.0}[tier]
